@@ -795,7 +795,7 @@ func defaultsBeforeOptions(c *core.Ctx) {
 				continue
 			}
 			defaults++
-			if call.Pos() > loops[0].Pos() {
+			if astx.Precedes(fd.Body, loops[0], call) {
 				late++
 			}
 			var target ast.Node = call
